@@ -61,3 +61,30 @@ def binary_matches_source(rel_paths):
         return r.returncode == 0
     except Exception:
         return False
+
+
+def functions_match_build(rel_path, names):
+    """True when the text of the named top-level functions of a .pyx file is the same as in the commit the extensions were built from
+    (other functions of the file may have been repaired at source level since)"""
+    import re
+    try:
+        r = subprocess.run(['git', '-C', REPO, 'show', '%s:%s' % (BUILD_COMMIT, rel_path)], capture_output=True, text=True, timeout=60)
+        if r.returncode != 0:
+            return False
+        old = r.stdout
+        new = open(os.path.join(REPO, rel_path)).read()
+    except Exception:
+        return False
+
+    def grab(src, name):
+        m = re.search(r'^(?:def|cdef [^\n(]*?)\s*%s\(' % re.escape(name), src, re.M)
+        if not m:
+            return None
+        start = m.start()
+        nxt = re.search(r'^(?:def |cdef |cpdef )', src[m.end():], re.M)
+        return src[start:m.end() + nxt.start()] if nxt else src[start:]
+    for n in names:
+        a, b = grab(old, n), grab(new, n)
+        if a is None or a != b:
+            return False
+    return True
